@@ -252,6 +252,53 @@ pub fn step(t: &[&str]) -> Option<String> {
                 Err(_) => "err".to_string(),
             })
         }
+        ["trydualfrom", real, rest @ ..] => {
+            // `try_new_from`: the same arbitrary lists, re-indexed onto another number's variable list
+            let real = pf(real)?;
+            let (os, rest) = counted(rest)?;
+            let (ns, rest) = counted(rest)?;
+            let (ds, rest) = counted(rest)?;
+            if !rest.is_empty() {
+                return None;
+            }
+            let os: Vec<String> = os.iter().map(|s| s.to_string()).collect();
+            let ns: Vec<String> = ns.iter().map(|s| s.to_string()).collect();
+            let ds: Vec<f64> = ds.iter().map(|s| pf(s)).collect::<Option<_>>()?;
+            guarded(|| {
+                let other = Dual2::new(0.5, os);
+                match Dual::try_new_from(&other, real, ns, ds) {
+                    Ok(d) => format!("ok v={} d={}", d.vars().len(), d.dual().len()),
+                    Err(_) => "err".to_string(),
+                }
+            })
+        }
+        ["trydual2from", real, rest @ ..] => {
+            let real = pf(real)?;
+            let (os, rest) = counted(rest)?;
+            let (ns, rest) = counted(rest)?;
+            let (ds, rest) = counted(rest)?;
+            let (hs, rest) = counted(rest)?;
+            if !rest.is_empty() {
+                return None;
+            }
+            let os: Vec<String> = os.iter().map(|s| s.to_string()).collect();
+            let ns: Vec<String> = ns.iter().map(|s| s.to_string()).collect();
+            let ds: Vec<f64> = ds.iter().map(|s| pf(s)).collect::<Option<_>>()?;
+            let hs: Vec<f64> = hs.iter().map(|s| pf(s)).collect::<Option<_>>()?;
+            guarded(|| {
+                let other = Dual::new(0.5, os);
+                match Dual2::try_new_from(&other, real, ns, ds, hs) {
+                    Ok(d) => format!(
+                        "ok v={} d={} h={}x{}",
+                        d.vars().len(),
+                        d.dual().len(),
+                        d.dual2().nrows(),
+                        d.dual2().ncols()
+                    ),
+                    Err(_) => "err".to_string(),
+                }
+            })
+        }
         ["trydual2", real, rest @ ..] => {
             let real = pf(real)?;
             let (ns, rest) = counted(rest)?;
@@ -1048,6 +1095,24 @@ pub fn gen_c20<W: Write>(out: &mut W, thorough: bool, seed: u64) {
                 out,
                 "trydual2 {} {} {} {} {} {} {}",
                 hf(r.dyadic()),
+                nv,
+                vs.join(" "),
+                nd,
+                ds.join(" "),
+                nh,
+                hs.join(" ")
+            )
+            .unwrap();
+            // ... and the same lists through `try_new_from`, onto another number's list
+            let no = r.range(0, 4) as usize;
+            let os: Vec<&str> = (0..no).map(|_| *r.pick(&names)).collect();
+            writeln!(out, "trydualfrom {} {} {} {} {} {} {}", hf(r.dyadic()), no, os.join(" "), nv, vs.join(" "), nd, ds.join(" ")).unwrap();
+            writeln!(
+                out,
+                "trydual2from {} {} {} {} {} {} {} {} {}",
+                hf(r.dyadic()),
+                no,
+                os.join(" "),
                 nv,
                 vs.join(" "),
                 nd,
